@@ -75,3 +75,40 @@ def strop_ok(token: str) -> bool:
         return False                      # already valid, unreserved identifiers are returned unchanged
     # same input, same result (a second call through the same encoder)
     return _L.filter_id(tok_r, IDTYPE) == out_r
+
+
+# ------------------------------------------------------------------------------------------------ process history
+_RES2 = "aa"
+
+
+def _new_language(extra_reserved: bool):
+    b = LanguageContextBuilder(include_experimental_languages=True).set_target_language(LANG)
+    if extra_reserved:
+        res = list(_L.get_config_value_as_list("reserved_identifiers", default_value=[])) + [_RES2]
+        b.set_target_language_configuration_override("reserved_identifiers", res)
+    return b.create().get_target_language()
+
+
+def result_independent_of_earlier_language_objects(token: str, other_first: bool) -> bool:
+    """
+    pre: 1 <= len(token) <= 2 and all(c in "a_" for c in token)
+    post: _
+    """
+    # "the result depends only on the input (same in every process)": a language object with ITS configuration gives the same answer
+    # whether or not another language object with another stropping configuration was created and used before it in this process
+    if other_first:
+        other = _new_language(True)
+        other.filter_id(_RES2, IDTYPE)
+        other.filter_id(token, IDTYPE)
+    mine = _new_language(False)
+    out = mine.filter_id(token, IDTYPE)
+    ref = _L.filter_id(token, IDTYPE)            # the module-level object: first of its configuration in this process
+    if out != ref:
+        return False
+    # and the other way round: the object with the extra reserved word honours it although a default object was used before it
+    late = _new_language(True)
+    try:
+        got = late.filter_id(_RES2, IDTYPE)
+    except RuntimeError:
+        return True
+    return got != _RES2
